@@ -66,6 +66,10 @@ claimed = {
          "Decides the runner's bookkeeping contract (applied bit only after Migrate returned a nil state and a nil-or-context error, in one batch with the resume-state deletion; resume state persisted when non-nil), each migration's side of it (no nil state with a context error), validation before a runner exists, the full target version persisted once before the first migration, that an already-migrated block is never rewritten by the block-transactions re-run, and that bucket byte values, CBOR registration order and migration indices extend the recorded history. It does not decide that converted data equals the original nor resumability of each pipeline at each interruption point.",
          "trusted: go/types (constant evaluation), go/ssa; package node has no SSA in this sandbox (jemalloc) and is read from its syntax tree; the recorded history tables live in engine/c18hist.go and engine/c18.go",
          "DESIGN.md §5 C18"),
+ "C10": ("dominance of the hash comparison over every use of a proof node and every success return (the compared value must be the content hash Node.Hash(hashFn)); mirror-branch term check in the range verifier; value-identity of the state view in the storage-proof RPC handlers",
+         "Decides the soundness structure of proof verification: both VerifyProof implementations recompute each node's hash from its content and compare it with the expected hash before interpreting the node or returning a result, a missing node is an error, the range verifier cuts the side opposite to the boundary proof that points into a fork edge, and the storage-proof RPC (v8/v9/v10) proves and reports roots from one state view after the supported-block check. Completeness (honest proofs verify), absence-proof divergence cases and hash correctness are value-level and not decided.",
+         "trusted: go/types, go/ssa; Node.Hash implementations are assumed to hash the node's content",
+         "DESIGN.md §5 C10"),
 }
 pending = {}  # id -> reason (properties not claimed)
 props = [json.loads(l) for l in open(os.path.join(V, "properties.jsonl"))]
